@@ -578,6 +578,71 @@ def joblevel_cases(n, rng):
         yield c
 
 
+def vast_cases(n, rng):
+    """spaces with more sets than a double has integers (2**53) and fewer than a container can hold: nothing can be
+    enumerated; len() and space[i] at chosen indices are compared with C07_getitem's own statement evaluated in exact
+    integer arithmetic by this harness (row-major mixed radix over the operand lengths, right-most operand fastest) —
+    an arithmetic oracle, not the extracted model, which holds its ranges as lists"""
+    for _ in range(n):
+        k = rng.choice([2, 2, 3])
+        target = rng.choice([2 ** 53 + 1, 2 ** 54, 2 ** 56 + 12345, 2 ** 60, 2 ** 62, 3 * 10 ** 16, 9 * 10 ** 18])
+        lens, rest = [], target
+        for j in range(k - 1):
+            x = rng.choice([3, 7, 10 ** 3, 10 ** 7, 2 ** 20 + 1, 3 * 10 ** 9])
+            lens.append(x)
+            rest = max(2, rest // x)
+        lens.append(rest)
+        rng.shuffle(lens)
+        total = 1
+        for x in lens:
+            total *= x
+        if not (2 ** 53 < total < 2 ** 63):
+            continue
+        starts = [rng.choice([1, 0, -5, 1000]) for _ in lens]
+        names = NAMES[:k]
+        idx = sorted({0, 1, -1, -2, total - 1, total - 2, total // 2, total // 3, 2 ** 53, 2 ** 53 + 1, 2 ** 53 + 2, -(2 ** 53) - 1, total, -total, -total - 1, total + 5}
+                     | {rng.randrange(total) for _ in range(6)} | {total - 1 - rng.randrange(min(total, 10 ** 6)) for _ in range(6)})
+        yield {"kind": "vast", "names": names, "starts": starts, "lens": lens, "idx": idx, "explicit": rng.random() < 0.5}
+
+
+def vast_expected(case):
+    lens, starts, names = case["lens"], case["starts"], case["names"]
+    total = 1
+    for x in lens:
+        total *= x
+    out = []
+    for i in case["idx"]:
+        j = i + total if i < 0 else i
+        if not (0 <= j < total):
+            out.append([i, "IndexError"])
+            continue
+        vals = {}
+        for nm, st, ln in reversed(list(zip(names, starts, lens))):
+            vals[nm] = st + j % ln
+            j //= ln
+        out.append([i, sorted([nm, "INT", str(v)] for nm, v in vals.items())])
+    return ["vast", total, out]
+
+
+def vast_observe(case):
+    params = [{"name": nm, "type": "INT", "range": f"{st}-{st + ln - 1}"} for nm, st, ln in zip(case["names"], case["starts"], case["lens"])]
+    c = {"kind": "space", "params": params, "comb_text": " * ".join(case["names"]) if case["explicit"] else None}
+    sp = StepParameterSpaceIterator(space=build_space(c))
+    try:
+        n = len(sp)
+    except BaseException as e:  # noqa: BLE001
+        n = "len-raised:" + type(e).__name__
+    out = []
+    for i in case["idx"]:
+        try:
+            out.append([i, canon_env(sp[i])])
+        except IndexError:
+            out.append([i, "IndexError"])
+        except BaseException as e:  # noqa: BLE001
+            out.append([i, "raised:" + type(e).__name__])
+    return ["vast", n, out]
+
+
 def raw_cases(n, rng):
     """OUTSIDE the property's domain (unbalanced associations, built past validation with
     pydantic construct()): exercises the model's exception paths.  Disagreements here are
@@ -622,6 +687,7 @@ class C07(core.PropBase):
         yield from random_cases(40000 if thorough else 2500, rng)
         yield from default_cases(5000 if thorough else 300, rng)
         yield from joblevel_cases(3000 if thorough else 300, rng)
+        yield from vast_cases(400 if thorough else 40, rng)
         yield from raw_cases(6000 if thorough else 400, rng)
         for _ in range(3):
             yield corpus()[-1]
@@ -631,7 +697,7 @@ class C07(core.PropBase):
         return (f"corpus (A*B 2x2 with next() after exhaustion, (A*B,C), (A*B,C*D), A*(B,C)*D, docstring examples, no space); "
                 f"every canonical combination tree with <= {n} leaves x every balanced assignment of leaf lengths "
                 "(free leaves 1..3, association lengths 1,2,3,4,6, forced leaves <= 9) (exhaustive over shapes and lengths; leaf "
-                "representation INT list / INT range expression / FLOAT / STRING / PATH rotated, history script seeded); "
+                "representation INT list / INT range expression / FLOAT / STRING / PATH rotated, history script seeded); products of 2-3 range expressions with 2**53 .. 2**63 sets (len and space[i] at boundary / random indices against C07_getitem evaluated in exact arithmetic); "
                 f"random trees with 1..16 leaves, depth <= 5, len <= {MAX_TOTAL}, list and range-expression leaves mixed; absent "
                 "combination with 1..5 parameters; step without a space.  Each case: construction, len, list, obj[i] for i in "
                 "[-len-1, len] and two far indices, one scripted history over up to three iterators (next/index/len, three "
@@ -651,10 +717,14 @@ class C07(core.PropBase):
         return out
 
     def nontrivial(self, case):
+        if case["kind"] == "vast":
+            return True
         return len(case["params"]) >= 2
 
     # -- implementation
     def impl(self, case):
+        if case["kind"] == "vast":
+            return vast_observe(case)
         if case["kind"] == "none":
             return observe(None, case["idx"], case["ops"])
         space = build_space(case)
@@ -662,6 +732,8 @@ class C07(core.PropBase):
 
     # -- model
     def requests(self, case):
+        if case["kind"] == "vast":
+            return []
         if case["kind"] == "none":
             sp = "none"
         else:
@@ -672,9 +744,13 @@ class C07(core.PropBase):
         return [["run", False, sp, case["idx"], [list(o) for o in case["ops"]]]]
 
     def model_obs(self, case, replies):
+        if case["kind"] == "vast":
+            return vast_expected(case)
         return de_reply(replies[0])
 
     def spec_obs(self, case):
+        if case["kind"] == "vast":
+            return ["C07_getitem evaluated in exact integer arithmetic (row-major mixed radix)"]
         drv = core.Driver(self.component)
         replies, _ = drv.ask(self.requests(case), self.prelude())
         r = replies[0]
@@ -695,6 +771,8 @@ class C07(core.PropBase):
 
     def classify_case(self, case, obs):
         ks = [case["kind"]]
+        if case["kind"] == "vast":
+            return ks + ["vast:len>2^53"]
         if obs[0] != "ok":
             return ks + ["construct:" + str(obs[1])]
         L = obs[1][1] if obs[1][0] == "ok" else -1
@@ -730,6 +808,11 @@ class C07(core.PropBase):
         return res
 
     def shrink_candidates(self, case):
+        if case["kind"] == "vast":
+            for i in range(len(case["idx"])):
+                if len(case["idx"]) > 1:
+                    yield dict(case, idx=case["idx"][:i] + case["idx"][i + 1:])
+            return
         ops = case["ops"]
         for i in range(len(ops) - 1, 0, -1):
             if ops[i][0] != "iter":
